@@ -31,9 +31,11 @@ def shapes(p, rng, quick):
     S.append(["u64_to_hex", "%016x" % c])
     # regression pair of the fixed finding (module-level scratch vectors): lonlat_to_cell((12.3, 45.6), 9) is place 0
     S.append(["cell_to_boundary", "2a2a000000000000", None])
+    kids = ser.cell_to_children(c)
+    S.append(["compact", ["%016x" % x for x in kids]])
+    S.append(["compact", ["%016x" % x for x in ser.cell_to_children(kids[1])] + ["%016x" % kids[2]]])
+    S.append(["cell_to_parent", "%016x" % c, 3])
     if not quick:
-        S.append(["compact", ["%016x" % x for x in ser.cell_to_children(c)]])
-        S.append(["cell_to_parent", "%016x" % c, 3])
         S.append(["get_res0_cells"])
         S.append(["cell_area", 7])
         S.append(["hex_to_u64", "%016x" % c])
